@@ -279,6 +279,7 @@ PROPS["C18"] = dict(
 
 PROPS["C13"] = dict(
     pkg="c13",
+    arch386=True,  # sizes taken from untrusted headers meet a 32-bit int in the extra GOARCH=386 shard
     level="exploration",
     technique="property-based testing (rapid) and native fuzzing through sandboxed worker processes: structure-aware hostile mutation of valid images and signatures, outcome classification (return / error / panic / exit / timeout / allocation)",
     level_text=("Inputs: valid images (generated, library-signed, sbsign fixtures) with every header field the statement names set to hostile constants (e_lfanew, NumberOfSections, SizeOfOptionalHeader, symbol table, magic, SizeOfHeaders, "
@@ -298,6 +299,7 @@ PROPS["C13"] = dict(
 
 PROPS["C14"] = dict(
     pkg="c14",
+    arch386=True,  # (the extra 32-bit shard is built without the race detector, which GOARCH=386 does not have)
     level="exploration",
     technique="property-based testing (rapid) and native fuzzing through sandboxed worker processes (built with the race detector; one input in three decoded by three goroutines at once), one entry point per decoder; static list of termination call sites used as coverage target only",
     level_text=("One sandboxed entry point per decoder the statement names: signature database / list / data, authentication descriptor (reader and Unmarshal), WIN_CERTIFICATE (+UEFI_GUID), load option and device path incl. Format() of every node, "
